@@ -138,6 +138,8 @@ pub(crate) enum ExtMut {
     ResignOtherKey(u8),
     DropVote(u8),
     ReorderVotes,
+    /// another address on one vote entry (odd k: prefer an absent entry)
+    ChangeAddress(u8),
 }
 
 #[derive(Serialize, Deserialize, Clone, Debug, PartialEq, Eq)]
@@ -858,7 +860,8 @@ fn gen_byz(rng: &mut Rng, profile: &str) -> ByzOp {
     let ext_w: u32 = if profile == "oracle" { 70 } else { 25 };
     if rng.below(100) < u64::from(ext_w) {
         let k = rng.below(6) as u8;
-        ByzOp::Ext(match rng.below(14) {
+        ByzOp::Ext(match rng.below(15) {
+            14 => ExtMut::ChangeAddress(k),
             0 => ExtMut::CorruptSig(k),
             1 => ExtMut::DropSig(k),
             2 => ExtMut::SwapExtensions,
